@@ -33,7 +33,7 @@ fn small_ontology(n: u32, tree: bool) -> Ontology {
     b.connect_all_terms().calculate_information_content().unwrap().build_minimal()
 }
 
-/// seeded symmetric distance of two id sets. seed % 6 selects the range:
+/// seeded symmetric distance of two id sets. seed % 7 selects the range:
 /// (0.05, 1.05) | (-0.5, 0.5) (a user distance like 1 - similarity may be negative) | (0, 1000) | (-3, -2) | (1e-9, 2e-9) | (-0.5, 0.5) with a quarter of the pairs at exactly 0
 fn dist(seed: u64, a: &[u32], b: &[u32]) -> f32 {
     let ha = hash_u64s(&a.iter().map(|x| u64::from(*x)).collect::<Vec<_>>());
@@ -41,7 +41,10 @@ fn dist(seed: u64, a: &[u32], b: &[u32]) -> f32 {
     let (x, y) = if ha <= hb { (ha, hb) } else { (hb, ha) };
     let h = hash_u64s(&[seed, x, y]);
     let u = ((h >> 40) as f32) / ((1u64 << 24) as f32);
-    match seed % 6 {
+    match seed % 7 {
+        // subnormal distances (a product of many small probabilities): every value is a small
+        // multiple of 2^-149, so halving loses bits unless it is done after the addition
+        6 => f32::from_bits(((h >> 40) & 0xF_FFFF) as u32 + 1),
         0 => 0.05 + u,
         1 => u - 0.5,
         2 => u * 1000.0,
@@ -111,7 +114,7 @@ impl Monitor for C17 {
     }
     fn mandatory_buckets(&self, _tier: Tier) -> Vec<String> {
         let mut v: Vec<String> = METHODS.iter().map(|m| format!("method/{m}")).collect();
-        for b in ["merge/two_inputs", "merge/input_and_cluster", "merge/two_clusters", "exact_replay_completed", "n/2", "distance_range/mixed_sign", "distance_range/negative", "distance_range/large", "distance_range/tiny", "distance_range/mixed_sign_with_exact_zeros", "owned_iterator_read_from_both_ends", "distance/one_infinite_pair", "input/iterator_with_inexact_size_hint", "input/empty_set", "input/identical_sets", "input/set_with_ancestor_and_descendant"] {
+        for b in ["merge/two_inputs", "merge/input_and_cluster", "merge/two_clusters", "exact_replay_completed", "n/2", "distance_range/mixed_sign", "distance_range/negative", "distance_range/large", "distance_range/tiny", "distance_range/mixed_sign_with_exact_zeros", "distance_range/subnormal", "owned_iterator_read_from_both_ends", "distance/one_infinite_pair", "input/iterator_with_inexact_size_hint", "input/empty_set", "input/identical_sets", "input/set_with_ancestor_and_descendant"] {
             v.push(b.to_string());
         }
         v
@@ -131,7 +134,7 @@ impl Monitor for C17 {
         let tree = rng.chance(1, 2);
         let ont = small_ontology(n_terms, tree);
         let dseed = rng.next_u64();
-        out.bucket(["distance_range/positive", "distance_range/mixed_sign", "distance_range/large", "distance_range/negative", "distance_range/tiny", "distance_range/mixed_sign_with_exact_zeros"][(dseed % 6) as usize]);
+        out.bucket(["distance_range/positive", "distance_range/mixed_sign", "distance_range/large", "distance_range/negative", "distance_range/tiny", "distance_range/mixed_sign_with_exact_zeros", "distance_range/subnormal"][(dseed % 7) as usize]);
         // distinct sets; one of them may be empty
         let mut sets: Vec<Vec<u32>> = Vec::new();
         let mut seen: BTreeSet<Vec<u32>> = BTreeSet::new();
